@@ -363,6 +363,21 @@ func classify(c ocase, diff []string) string {
 			}
 		}
 	}
+	// ingresses of one creation stamp whose namespace and name concatenate to the same text
+	// (a/bc and ab/c): the separator of the tie-break key of sortIngress decides
+	var ings []*networking.Ingress
+	for _, o := range all {
+		if ing, ok := o.(*networking.Ingress); ok {
+			ings = append(ings, ing)
+		}
+	}
+	for i, x := range ings {
+		for _, y := range ings[i+1:] {
+			if x.CreationTimestamp.Equal(&y.CreationTimestamp) && x.Namespace != y.Namespace && x.Namespace+x.Name == y.Namespace+y.Name {
+				return "C06/sort-ingress-key-collision"
+			}
+		}
+	}
 	// tcp-services ConfigMap: two keys that are one port number
 	for _, o := range all {
 		if cm, ok := o.(*api.ConfigMap); ok && cm.Name == "tcp-services" {
@@ -481,6 +496,10 @@ func genCase(rng *rand.Rand, i int, withBatch bool) ocase {
 		c.opts.GatewayV1 = true
 		objs = append(objs, c06.GenGateways(rng)...)
 	}
+	if i%5 == 2 {
+		// ingresses created in the same second whose namespace / name stress the tie-break
+		objs = append(objs, c06.GenAdversarial(rng, 2+rng.Intn(4))...)
+	}
 	c.objs = c06.Stamp(objs)
 	if withBatch {
 		if level > 0 {
@@ -521,8 +540,8 @@ func main() {
 			cases = append(cases, decode(in))
 			isCorpus = append(isCorpus, true)
 		}
-		nCluster := o.Count(36, 800)
-		nBatch := o.Count(18, 400)
+		nCluster := o.Count(30, 800)
+		nBatch := o.Count(15, 400)
 		if o.Search {
 			nCluster, nBatch = o.Count(400, 1500), o.Count(150, 700)
 		}
